@@ -164,7 +164,7 @@ def dict_default_gap(rst, ost):
     if r[0] == 'dict' and o[0] == 'dict' and r[1] is not None and o[1] is not None:
       for key, f in r[1]:
         for okey, g in o[1]:
-          if key == okey and key[0] == 'c' and not f[-1][2] and (g[-1][1] != ['M'] or g[-1][2]) and f[-1][1] != g[-1][1]:
+          if key == okey and key[0] == 'c' and not f[-1][2] and (g[-1][1] != ['M'] or g[-1][2]) and (f[-1][1] != g[-1][1] or g[-1][2]):
             return True
   return False
 
@@ -174,7 +174,9 @@ def union_int_and_float(st):
   k = st[0]
   if k == 'union':
     kinds = [c[0] for c in st[1]]
-    if sum(1 for c in st[1] if c[0] in ('int', 'bool', 'float', 'enum', 'any')) >= 2:
+    prims = [c[0] for c in st[1] if c[0] in ('int', 'bool', 'float', 'enum', 'any', 'str')]
+    numeric = [k for k in prims if k in ('int', 'bool', 'float')]
+    if len(prims) >= 2 and (len(numeric) >= 2 or 'enum' in prims or 'any' in prims):
       return True
     return any(union_int_and_float(c) for c in st[1])
   if k == 'list':
@@ -201,10 +203,28 @@ def frozen_foreign_default(st):
   return False
 
 
+def frozen_dict_default(d):
+  if d.get('fz') and d.get('d') is not None and '["d"' in json.dumps(d['d']):
+    return True
+  subs = []
+  if 'elem' in d:
+    subs.append(d['elem'])
+  subs += d.get('elems', []) + d.get('cands', []) + [f for _, f in (d.get('fields') or [])]
+  return any(frozen_dict_default(x) for x in subs)
+
+
+def multi_key_dict(v):
+  if v[0] == 'd':
+    return len(v[1]) >= 2 or any(multi_key_dict(x) for _, x in v[1])
+  if v[0] in ('l', 't'):
+    return any(multi_key_dict(x) for x in v[1])
+  return False
+
+
 def default0(desc):
   """The value `set_default` is called with by the constructor (None: not comparable)."""
-  if desc.get('n') == 2 and desc['k'] == 'dict':
-    return None                      # Dict.noneable() overwrites the default with None
+  if desc.get('n') == 2 and desc['k'] in ('dict', 'union'):
+    return None                      # Dict.noneable() overwrites the default with None (also inside a Union)
   if desc.get('d') is not None:
     return desc['d']
   return None
@@ -423,6 +443,10 @@ class C04(Prop):
         if key not in seen:
           seen.add(key)
           uniq.append(v)
+      if frozen_dict_default(a) or frozen_dict_default(b):
+        # stated assumption: where a frozen default containing a dict is compared, equal dicts come
+        # in equal key order (the model compares dict items in order)
+        uniq = [v for v in uniq if not multi_key_dict(v)]
       if len(uniq) > 24:
         uniq = uniq[:8] + rng.sample(uniq[8:], 16)
       made += 1
@@ -606,7 +630,7 @@ class C04(Prop):
       return 'list-min-size-ignored'
     if dict_default_gap(rst, ost):
       return 'dict-field-default-ignored'
-    if union_int_and_float(rst) and any(x[0] in ('i', 'b') for x in vat):
+    if union_int_and_float(rst) and any(x[0] in ('i', 'b', 'f', 's') for x in vat):
       return 'union-dispatches-by-type'
     return '%s<-%s' % (rst[0], ost[0])
 
